@@ -41,12 +41,18 @@ value whose type is not declared (`Any`).  It differs from `into_data(v)` on an 
 subclass: there is no scalar bypass, the serialiser of the base type's table row runs (`float(v)` gives a
 plain float, `bytes` rows keep the object). -/
 def dynElem (E : Ext) (dyn : Val → Except Exc Val) (v : Val) : Except Exc Val :=
+  match E.elemHook v with
+  | some r => r      -- a custom handler answers for the element's runtime type
+  | none =>
   match v with
   | .sub _ b =>
     match Facts.basicTable.lookup b.typeName with
     | some (.scalar ty _ ser _ _) => scalarSer E ty ser v
     | _ => dyn v
   | v => dyn v
+
+/-- no custom handler intercepts elements of undeclared type (the case without call-level / class-level handlers) -/
+def NoElemHook (E : Ext) : Prop := ∀ v, E.elemHook v = none
 
 /-- the serialiser `DictConverter.into_data` uses for keys (values) of converter `c`: `dynElem` when the
 type is undeclared (`AnyConverter`), the converter's own serialiser `f` otherwise -/
